@@ -56,7 +56,7 @@ def extra_names():
 EXTRA_NAMES = extra_names()
 CMD_NAMES = CMD_NAMES + EXTRA_NAMES * 2
 MATH_CMD_NAMES = ('frac', 'sqrt', 'sum', 'alpha', 'beta', 'mathbf', 'x', 'hat', 'lim', 'leftarrow', 'rightarrow',
-                  'biggl', 'lefteqn', 'inf', 'Biggr')
+                  'biggl', 'lefteqn', 'inf', 'Biggr', 'boldsymbol', 'operatorname', 'bar', 'vec') + tuple(n for n in EXTRA_NAMES if n.isalpha())
 ENV_NAMES = ('e', 'f', 'center', 'quote', 'tabular', 'thm', 'figure*', 'doc', 'document', 'small', 'longtableenvironmentname',
              'anenvironmentwhosenameislongerthanthirtytwocharacters', 'verbatim*') + EXTRA_NAMES
 INNER_MATH_ENVS = ('split', 'cases', 'array', 'aligned')
